@@ -8,6 +8,7 @@ package verifrt
 import (
 	"bytes"
 	"reflect"
+	"runtime/metrics"
 	"sync/atomic"
 	"time"
 )
@@ -28,7 +29,35 @@ type Event struct {
 }
 
 // BudgetExceeded is the panic value raised when the statement budget is exhausted.
-type BudgetExceeded struct{ Steps int64 }
+type BudgetExceeded struct {
+	Steps int64
+	Alloc uint64 // > 0: the ALLOCATION budget was exhausted (bytes allocated since ArmAlloc)
+}
+
+// ---- allocation budget: bytes allocated on the heap by the whole process since ArmAlloc, looked at every 1024
+// statements.  A loop whose cost sits in copying (quadratic concatenation ...) executes few statements per byte
+// moved; its allocation volume gives it away long before the statement budget would.
+
+var (
+	AllocBudget  uint64 // 0 = off
+	allocBase    uint64
+	allocTripped uint64
+	allocSample  = []metrics.Sample{{Name: "/gc/heap/allocs:bytes"}}
+)
+
+func allocNow() uint64 {
+	metrics.Read(allocSample)
+	if allocSample[0].Value.Kind() != metrics.KindUint64 {
+		return 0
+	}
+	return allocSample[0].Value.Uint64()
+}
+
+// ArmAlloc sets the allocation budget (0 = off) and starts counting from now.
+func ArmAlloc(limit uint64) { AllocBudget, allocBase, allocTripped = limit, allocNow(), 0 }
+
+// Allocated returns the bytes allocated since ArmAlloc.
+func Allocated() uint64 { return allocNow() - allocBase }
 
 var (
 	// PointHook, if set, is called at every statement point (the cooperative scheduler).
@@ -53,7 +82,19 @@ var (
 func P(id int) {
 	Steps++
 	if Budget > 0 && Steps > Budget {
-		panic(BudgetExceeded{Steps})
+		panic(BudgetExceeded{Steps: Steps})
+	}
+	if AllocBudget > 0 && (allocTripped > 0 || Steps&1023 == 0) {
+		// sticky like the statement budget: code under test that recovers the panic (a recovery middleware) meets it
+		// again at its next statement, until the harness disarms the budget
+		if allocTripped == 0 {
+			if a := allocNow() - allocBase; a > AllocBudget {
+				allocTripped = a
+			}
+		}
+		if allocTripped > 0 {
+			panic(BudgetExceeded{Steps: Steps, Alloc: allocTripped})
+		}
 	}
 	if Cover != nil && id < len(Cover) {
 		Cover[id]++
